@@ -29,8 +29,8 @@ func (*c03) CoqImport() string {
 
 func (*c03) Rule() string {
 	return "enumerated part: install {a,b,s}+3 hooks then upgrade to {a',c} (drops b,s; adds c) / install alone, the last operation carrying every single " +
-		"fault position (every resource key of the old and new manifest x {create,patch,delete,get}, every hook x watch 0/1, the wait) x every combination of " +
-		"atomic / cleanup-on-fail / no-hooks; generated part: fault-free prefix of 0-3 operations from eng.GenHistory (5-resource pool, <=3 hooks, random flags), " +
+		"fault position (every resource key of the old and new manifest x {create,patch,delete,get}, every hook x watch 0/1, the wait with and without " +
+		"wait-for-jobs) x every combination of atomic / cleanup-on-fail / no-hooks; install, upgrade, then rollback with every position x cleanup/no-hooks; generated part: fault-free prefix of 0-3 operations from eng.GenHistory (5-resource pool, <=3 hooks, random flags), " +
 		"then install (1/5) / upgrade (3/5) / rollback (1/5) with <=4 resources, <=3 hooks, random atomic/cleanup/no-hooks and one fault position drawn " +
 		"uniformly; no keep annotations, no storage faults, no crash; non-trivial = the fault was hit (a request was rejected, the wait or the hook watch failed)"
 }
@@ -79,6 +79,12 @@ func (*c03) Corpus() []any {
 	// ... and of C03_atomic_install_any_history: a failed install left 1:failed and a; install --replace --atomic {a',b}, CREATE b rejected
 	out = append(out, hist(withK(c12Op("install", 1, eng.Flags{}, nil, "a", "c"), "create", "ConfigMap/c"),
 		withK(c12Op("install", 2, eng.Flags{Atomic: true, Replace: true}, nil, "a", "b"), "create", "ConfigMap/b")))
+	// the readiness wait failing in the WaitWithJobs branch of rollback / upgrade / install (secret backend: the
+	// records are serialised, so a status that is only set in memory does not reach the ledger)
+	wfj := func(op *eng.Op) *eng.Op { o := *op; o.WaitFail = true; o.Flags.WaitForJobs = true; return &o }
+	out = append(out, hist(inst, up, wfj(c12Op("rollback", 0, eng.Flags{}, nil))))
+	out = append(out, hist(inst, wfj(c12Op("upgrade", 2, eng.Flags{}, c03Hooks, "a", "c"))))
+	out = append(out, hist(wfj(c12Op("install", 1, eng.Flags{}, c03Hooks, "a", "b"))))
 	// rollback (excluded from "previous stays deployed"): PATCH a rejected => 1:superseded 2:superseded 3:failed
 	out = append(out, hist(c12Op("install", 1, eng.Flags{}, nil, "a"), c12Op("upgrade", 2, eng.Flags{}, nil, "a"),
 		withK(c12Op("rollback", 0, eng.Flags{}, nil), "patch", "ConfigMap/a")))
